@@ -28,6 +28,12 @@ CHECKS.update({
             'Every public command is called with generated arguments (boundary/special floats, ints beyond field ranges, all flag combinations) '
             'for protocol versions on both sides of each switch and X-mode on/off; the emitted packet is decoded with an independent table.',
             'The wire table restates the pinned sources (drift detector); firmware itself is not available offline.'),
+    'C14': ('exploration', 'DESIGN.md 3/C14', 'memdev',
+            'Hypothesis-generated image contents through the real Memory/element classes over a simulated memory port; exhaustive single-byte corruption positions per image against independent checksum/CRC verdicts; round-trip and independent struct decoders',
+            'Images are written by the library, decoded by independent tables, parsed back by fresh and by re-used element objects, and every '
+            'byte position of each EEPROM/1-wire image is corrupted (drawn masks) with validity compared to an independent checksum/CRC verdict. '
+            'YAML files round-trip through temp files; deck info, anchor lists, Poly4D and LED timing layouts use reference encoders/decoders.',
+            'Memory-port device model and format references are my restatement of the formats; 8-bit-CRC collisions with malformed content are excluded and counted.'),
 })
 
 ALL = ['C%02d' % i for i in range(1, 21)]
